@@ -121,7 +121,7 @@ func runScenarioOnce(self, work string, raw []byte, deadline time.Duration, idx 
 		m["scn"] = sc.ID
 		res.lines = append(res.lines, m)
 	}
-	add(map[string]interface{}{"ev": "Reset", "kind": sc.Kind, "beh": sc.Beh, "hold": sc.Hold, "user": sc.User, "cls": sc.Cls})
+	add(map[string]interface{}{"ev": "Reset", "kind": sc.Kind, "beh": sc.Beh, "hold": sc.Hold, "user": sc.User, "down": sc.Down, "cls": sc.Cls})
 	if err := cmd.Start(); err != nil {
 		add(map[string]interface{}{"ev": "HarnessError", "what": err.Error()})
 		return res
